@@ -1289,6 +1289,9 @@ class TT():
             else:
                 # if len(index) != len(self.__N):
                 #    raise InvalidArguments('Slice size is invalid.')
+                if any(isinstance(i, bool) for i in index):
+                    raise InvalidArguments(
+                        "Slice carguments not valid. They have to be either int, slice or None.")
                 num_none = sum([i is None for i in index])
 
                 if index[0] == Ellipsis:
